@@ -1,5 +1,5 @@
-# sourced by every script: offline Go 1.26.8 toolchain
+# sourced by every script: offline Go 1.26.8 toolchain; VERIF = the checkout this script lives in
 export GOFLAGS=-mod=mod GOPROXY=off GOSUMDB=off GOTOOLCHAIN=local
 export GO=${GO:-go1.26.8}
-export VERIF=${VERIF:-/verif}
+export VERIF=${VERIF:-$(cd "$(dirname "${BASH_SOURCE[0]}")/.." && pwd)}
 export VBUILD=$VERIF/.build
